@@ -47,6 +47,10 @@ ASSUMPTIONS = [
     "produces the input of the search; an Allocation lives in the positive quadrant, keeps ratios in [0, 1] and "
     "divides by the total area of every listed module (so a listed module has a positive ratio somewhere) - the "
     "generator keeps to that; Rectangle's process-wide epsilon is undefined before and after",
+    "input-file path (two thirds of the allocation cases): the dict rect_io.get_alloc returns ({'Width','Height',"
+    "'Rectangles': [{name: [{'dim': [xc, yc, w, h]}, {'mod': [{module: ratio}]}]}]}) is written down directly - centre "
+    "and size are the binary64 values of the exact decimal numbers, as reading them from a file gives - and handed "
+    "to select_box; such a file is not confined to the positive quadrant (the property says: any origin)",
     "select_box's snapping tolerance is 1e-9 x the largest coordinate magnitude (binary64 product in the code, exact "
     "rational in the model): generated grid lines are at least 1/100 apart with magnitudes below 2^10, so no "
     "comparison is near the threshold",
@@ -101,6 +105,35 @@ def gen_axis_decimal(rng, n):
     return xs
 
 
+def gen_axis_decimal_any(rng, n):
+    """n cells -> n + 1 increasing decimal coordinates anywhere on the axis: ending exactly at 0, with 0 as an inner
+    grid line, with 0 inside a cell, wholly negative, far from the origin on either side (a hand-made input file is not
+    confined to the positive quadrant)."""
+    step = rng.choice([None, None, Fraction(1, 10), Fraction(1, 10), Fraction(3, 10), Fraction(7, 100)])
+    steps = [step or Fraction(rng.choice([1, 1, 2, 3, 7, 11, 5, 13]), rng.choice([10, 10, 100, 20])) for _ in range(n)]
+    total = sum(steps)
+    mode = rng.choice(["end0", "end0", "end0", "line0", "inside0", "neg", "farneg", "farpos", "pos"])
+    if mode == "end0":
+        o = -total
+    elif mode == "line0":
+        o = -sum(steps[:rng.randrange(0, n + 1)])
+    elif mode == "inside0":
+        i = rng.randrange(n)
+        o = -sum(steps[:i]) - steps[i] / 2
+    elif mode == "neg":
+        o = -total - Fraction(rng.choice([1, 3, 17, 250]), 10)
+    elif mode == "farneg":
+        o = -Fraction(rng.choice([10003, 123456, 9999999]), 10) - total
+    elif mode == "farpos":
+        o = Fraction(rng.choice([10003, 123456, 9999999]), 10)
+    else:
+        o = Fraction(rng.choice([0, 1, 3, 17]), 10)
+    xs = [o]
+    for st in steps:
+        xs.append(xs[-1] + st)
+    return xs
+
+
 STYLES = ["unit0", "int0", "frac0", "shift-int", "shift-frac", "unit0", "int0", "frac0", "shift-int", "shift-frac",
           "tiny"]
 # the first 10 are the "small" sizes (every other case): half of them a single row or column
@@ -147,17 +180,23 @@ def make_alloc(rng, case, decimal):
         case["bound"] = -10 ** 9
 
 
-def gen_case(rng, small=False, alloc=None):
+def gen_case(rng, small=False, alloc=None, via="file"):
     """alloc: None (the grid is given to solve directly), False (through an allocation, dyadic numbers),
-    True (through an allocation with decimal coordinates: direct oracle only)."""
+    True (through an allocation with decimal coordinates: direct oracle only).
+    via: "file" (allocation text -> frame Allocation -> rect_io.get_alloc: positive quadrant only) or "ifile" (the
+    parsed input file, the dict get_alloc returns, handed to select_box directly: any origin)."""
     nx, ny = rng.choice(SIZES[:10] if small else SIZES)
-    if alloc:
+    if alloc and via == "ifile":
+        xs, ys = gen_axis_decimal_any(rng, nx), gen_axis_decimal_any(rng, ny)
+        if rng.random() < 0.5:          # one axis plain, so that the other one's position is what matters
+            ys = gen_axis_decimal(rng, ny)
+    elif alloc:
         xs, ys = gen_axis_decimal(rng, nx), gen_axis_decimal(rng, ny)
     else:
         while True:
             xs = gen_axis(rng, nx, rng.choice(STYLES))
             ys = gen_axis(rng, ny, rng.choice(STYLES))
-            if alloc is None or (xs[0] >= 0 and ys[0] >= 0):
+            if alloc is None or via == "ifile" or (xs[0] >= 0 and ys[0] >= 0):
                 break
     n = nx * ny
     order = list(range(n))
@@ -208,6 +247,7 @@ def gen_case(rng, small=False, alloc=None):
         case["bound"] = rng.randint(minneg - 1, 0)
     if alloc is not None:
         make_alloc(rng, case, alloc)
+        case["alloc"]["via"] = via
     if rng.random() < 0.15:
         case["history"] = {"kind": "grid", "cells": grid_cells([Fraction(0), Fraction(1), Fraction(3)],
                                                                [Fraction(0), Fraction(2)], [0, 1]),
@@ -245,6 +285,18 @@ def through_allocation(case):
     import os
     import tempfile
     Rectangle.undefine_epsilon()
+    if case["alloc"].get("via") == "ifile":
+        # the parsed input file as get_alloc builds it, written down directly: centre and size are the binary64 values
+        # of the exact decimal numbers (what reading them from a file gives)
+        rects = []
+        for i, ((x1, y1, x2, y2), mods) in enumerate(zip(case["cells"], case["alloc"]["mods"])):
+            dim = [float((x1 + x2) / 2), float((y1 + y2) / 2), float(x2 - x1), float(y2 - y1)]
+            rects.append({f"b{i}": [{"dim": dim}, {"mod": [{nm: float(Fraction(r))} for nm, r in mods]}]})
+        xs = [c[0] for c in case["cells"]] + [c[2] for c in case["cells"]]
+        ys = [c[1] for c in case["cells"]] + [c[3] for c in case["cells"]]
+        ifile = {"Width": float(max(xs) - min(xs)), "Height": float(max(ys) - min(ys)), "Rectangles": rects}
+        inp, _ = IO.select_box("M", ifile)
+        return ifile, [tuple(float(v) for v in c) for c in inp]
     fd, path = tempfile.mkstemp(prefix="c08-alloc-", suffix=".yaml")      # get_alloc takes a file name
     try:
         with os.fdopen(fd, "w") as f:
@@ -800,7 +852,8 @@ def nontrivial(case):
 
 def dist_key(case):
     n = len(case["cells"])
-    kind = case["kind"] if not case.get("alloc") else ("alloc-decimal" if case["alloc"]["decimal"] else "alloc-dyadic")
+    kind = case["kind"] if not case.get("alloc") else \
+        (("ifile" if case["alloc"].get("via") == "ifile" else "alloc") + ("-decimal" if case["alloc"]["decimal"] else "-dyadic"))
     return f"{kind}/k{case['k']}/" + ("<=4" if n <= 4 else "<=9" if n <= 9 else "<=16" if n <= 16 else "<=25")
 
 
@@ -815,7 +868,10 @@ def run(ctx, out, replay=None):
                 "a degenerate cell (KeyError) for the correspondence only; 15% after an earlier solve in the same process; "
                 "every 8th case reaches the search through a real Allocation, rect_io.get_alloc and select_box - "
                 "alternately with dyadic numbers (select_box compared with the model exactly) and with decimal "
-                "coordinates (tenths, hundredths, twentieths; uniform or not; direct oracle only); for <= 9 cells every "
+                "coordinates (tenths, hundredths, twentieths; uniform or not; direct oracle only); two thirds of these "
+                "hand the parsed input file (the dict get_alloc returns) to select_box directly, which is not confined to "
+                "the positive quadrant: decimal axes ending exactly at 0, with 0 as an inner line or inside a cell, wholly "
+                "negative, and 1e3..1e6 away from 0 on either side; for <= 9 cells every "
                 "model of the solver's formula projected on the cell variables is enumerated with PySAT and compared "
                 "with the independent enumeration of shapes meeting the bound; the variable table (registration "
                 "order) is compared as well; non-trivial = full grid with >= 3 cells and k >= 2; distinct by hash")
@@ -827,7 +883,10 @@ def run(ctx, out, replay=None):
         j = len(cases)
         # every 8th case reaches the search through an allocation (get_alloc + select_box), alternately with
         # dyadic numbers (compared with the model exactly) and decimal ones (direct oracle)
-        cases.append(gen_case(ctx.rng, small=(j % 2 == 0), alloc=(None if j % 8 != 5 else (j % 16 == 5))))
+        # ... and every other one of those hands the parsed input file to select_box directly (any origin: negative,
+        # ending at 0, straddling 0, far from 0)
+        cases.append(gen_case(ctx.rng, small=(j % 2 == 0), alloc=(None if j % 8 != 5 else (j % 16 != 5)),
+                              via=("ifile" if j % 8 == 5 and (j // 16) % 3 != 0 else "file")))
     stats = {"sat": 0, "unsat": 0, "keyerror": 0, "zerodiv": 0, "zero_quality_denominator": 0, "enumerated_instances": 0, "models_enumerated": 0,
              "max_clauses": 0, "with_diagram": 0}
 
